@@ -64,6 +64,16 @@ fn judge(c: &dyn BoxCase, l: &mut Local) {
             Err(e) => l.violations.push(mk(if large { "decode_of_64bit_header_form_failed" } else { "decode_of_reference_bytes_failed" }).obs(json!({"error": e, "input_hex": hex(&b[..b.len().min(400)])}))),
         }
     }
+    // (b') the reference bytes decode to the same value when the box does not start at stream position 0
+    {
+        l.transitions += 1;
+        let lead = [0u8, 0, 0, 8, b'f', b'r', b'e', b'e', 1, 2, 3];
+        match c.lib_decode_eq_at(&lead, &reference) {
+            Ok((true, pos, _)) if pos == reference.len() as u64 => {}
+            Ok((eq, pos, _)) => l.violations.push(mk("decode_behind_leading_bytes_differs").obs(json!({"equal": eq, "position": pos, "len": reference.len()}))),
+            Err(e) => l.violations.push(mk("decode_behind_leading_bytes_failed").obs(json!({"error": e}))),
+        }
+    }
     // (d) so does the box with any one of its descendants in the 64-bit header form, followed by another box
     for (path, mut b) in c.ref_bytes_descendant_large() {
         l.transitions += 1;
@@ -75,6 +85,17 @@ fn judge(c: &dyn BoxCase, l: &mut Local) {
                 l.violations.push(mk("decode_with_descendant_in_64bit_header_form_differs").obs(json!({"descendant": path, "equal": eq, "position": pos, "len": own, "decoded": if shown.len() > 1200 { shown[..1200].to_string() } else { shown }, "input_hex": hex(&b[..b.len().min(400)])})));
             }
             Err(e) => l.violations.push(mk("decode_with_descendant_in_64bit_header_form_failed").obs(json!({"descendant": path, "error": e, "input_hex": hex(&b[..b.len().min(400)])}))),
+        }
+    }
+    // (e) an uninterpreted child inserted anywhere in the box decodes the same whether that child uses the compact or
+    // the 64-bit size header (same value, same distance from the end), or is refused in both forms
+    for (place, a, b) in c.ref_bytes_inserted_child() {
+        l.transitions += 2;
+        match c.lib_decode_both(&a, &b) {
+            Ok(Some((true, la, lb))) if la == lb => l.outcome("ok:inserted_child_header_forms_agree"),
+            Ok(None) => l.outcome("ok:inserted_child_refused_in_both_forms"),
+            Ok(Some((eq, la, lb))) => l.violations.push(mk("inserted_child_decodes_differently_with_64bit_header").obs(json!({"where": place, "values_equal": eq, "bytes_left_compact": la, "bytes_left_64bit": lb, "input_hex_64bit": hex(&b[..b.len().min(400)])}))),
+            Err(e) => l.violations.push(mk("inserted_child_decodes_differently_with_64bit_header").obs(json!({"where": place, "error": e, "input_hex_64bit": hex(&b[..b.len().min(400)])}))),
         }
     }
     l.validated += 1;
